@@ -826,3 +826,150 @@ Proof.
     unfold ssub_tok. destruct c as [|a b d]; [exact I|]. destruct (isdir a); [|exact I].
     apply tok_ok_sub. split; [right; reflexivity | apply IHc].
 Qed.
+
+(* ------------------------------------------------------------------ the 64-bit signatures *)
+
+Section Signatures.
+Variable matches : bytes -> bytes -> bool.
+Variable H : list ftok -> N.
+
+Theorem tree_signature_detects p v v' : wf_v v -> wf_v v' -> sorted_v v -> sorted_v v' -> edit1 v v' ->
+  hash_good H (hashed H (tree_tokens matches [] p v) ++ hashed H (tree_tokens matches [] p v')) ->
+  sig H (tree_tokens matches [] p v) <> sig H (tree_tokens matches [] p v').
+Proof.
+  intros W W' S S' Ed G E. apply sig_injective in E; [| apply tree_toks_ok | apply tree_toks_ok | exact G].
+  exact (tree_sig_detects matches p v v' W W' S S' Ed E).
+Qed.
+
+Theorem struct_signature_detects p v v' : wf_v v -> wf_v v' -> sorted_v v -> sorted_v v' -> sedit1 v v' ->
+  hash_good H (hashed H (struct_tokens matches [] p v) ++ hashed H (struct_tokens matches [] p v')) ->
+  sig H (struct_tokens matches [] p v) <> sig H (struct_tokens matches [] p v').
+Proof.
+  intros W W' S S' Ed G E. apply sig_injective in E; [| apply struct_toks_ok | apply struct_toks_ok | exact G].
+  exact (structure_detects matches p v v' W W' S S' Ed E).
+Qed.
+
+(* equal tokens give equal signatures whatever the hash is *)
+Theorem signature_stable (l1 l2 : list tok) : l1 = l2 -> sig H l1 = sig H l2.
+Proof. intros ->. reflexivity. Qed.
+End Signatures.
+
+(* ------------------------------------------------------------------ concrete witnesses *)
+
+Definition w_dir (ino sec : N) : fileinfo := mkFI 1 ino 16877 4096 sec 0 zeros32.      (* 040755 *)
+Definition w_file (ino mode size sec : N) : fileinfo := mkFI 1 ino mode size sec 0 zeros32.
+Definition w_a : bytes := [97].
+Definition w_b : bytes := [98].
+Definition w_l : bytes := [108].
+Definition w_tree : bytes := [116; 114; 101; 101].
+Definition lit_match (pat n : bytes) : bool := bytes_eqb pat n.
+
+(* non-vacuity: a concrete well-formed, sorted tree and an edit two levels down *)
+Definition w_v0 : vtree :=
+  VNode (w_dir 10 100) [(w_a, VNode (w_file 11 33188 5 100) []);
+                        (w_b, VNode (w_dir 12 100) [(w_a, VNode (w_file 13 33188 7 100) [])])].
+Definition w_v1 : vtree :=
+  VNode (w_dir 10 100) [(w_a, VNode (w_file 11 33188 5 100) []);
+                        (w_b, VNode (w_dir 12 100) [(w_a, VNode (w_file 13 33188 8 101) [])])].
+
+Lemma w_fi_ok d i m s t : d < 18446744073709551616 -> i < 18446744073709551616 -> m < 18446744073709551616 ->
+  s < 18446744073709551616 -> t < 18446744073709551616 -> wf_fi (mkFI d i m s t 0 zeros32).
+Proof. intros. unfold wf_fi, u64. cbn. repeat split; auto; lia. Qed.
+
+Lemma w_leaf_ok i : wf_fi i -> wf_v (VNode i []).
+Proof. intros Hi. constructor; [exact Hi | reflexivity | reflexivity | unfold u64; cbn; lia | constructor]. Qed.
+
+Lemma w_v0_wf : wf_v w_v0.
+Proof.
+  unfold w_v0, w_dir, w_file.
+  constructor; [apply w_fi_ok; lia | intros Hd; vm_compute in Hd; discriminate | reflexivity | unfold u64; cbn; lia |].
+  constructor; [apply w_leaf_ok; apply w_fi_ok; lia|].
+  constructor; [|constructor]. cbn [snd].
+  constructor; [apply w_fi_ok; lia | intros Hd; vm_compute in Hd; discriminate | reflexivity | unfold u64; cbn; lia |].
+  constructor; [apply w_leaf_ok; apply w_fi_ok; lia | constructor].
+Qed.
+
+Lemma w_v1_wf : wf_v w_v1.
+Proof.
+  unfold w_v1, w_dir, w_file.
+  constructor; [apply w_fi_ok; lia | intros Hd; vm_compute in Hd; discriminate | reflexivity | unfold u64; cbn; lia |].
+  constructor; [apply w_leaf_ok; apply w_fi_ok; lia|].
+  constructor; [|constructor]. cbn [snd].
+  constructor; [apply w_fi_ok; lia | intros Hd; vm_compute in Hd; discriminate | reflexivity | unfold u64; cbn; lia |].
+  constructor; [apply w_leaf_ok; apply w_fi_ok; lia | constructor].
+Qed.
+
+Lemma w_leaf_sorted i : sorted_v (VNode i []).
+Proof. constructor; constructor. Qed.
+
+Lemma w_v0_sorted : sorted_v w_v0.
+Proof.
+  constructor; [constructor; [reflexivity | constructor]|].
+  constructor; [apply w_leaf_sorted|]. constructor; [|constructor]. cbn [snd].
+  constructor; [constructor|]. constructor; [apply w_leaf_sorted | constructor].
+Qed.
+
+Lemma w_v1_sorted : sorted_v w_v1.
+Proof.
+  constructor; [constructor; [reflexivity | constructor]|].
+  constructor; [apply w_leaf_sorted|]. constructor; [|constructor]. cbn [snd].
+  constructor; [constructor|]. constructor; [apply w_leaf_sorted | constructor].
+Qed.
+
+Lemma w_edit01 : edit1 w_v0 w_v1.
+Proof.
+  unfold w_v0, w_v1.
+  apply (E_deep (w_dir 10 100) [(w_a, VNode (w_file 11 33188 5 100) [])] [] w_b).
+  apply (E_deep (w_dir 12 100) [] [] w_a).
+  apply E_info. unfold w_file. intros E. injection E as E. discriminate E.
+Qed.
+
+Lemma w_same_structure01 : same_structure w_v0 w_v1.
+Proof.
+  constructor; [reflexivity|].
+  constructor; [split; [reflexivity | constructor; [reflexivity | constructor]]|].
+  constructor; [|constructor]. split; [reflexivity|]. cbn [snd].
+  constructor; [reflexivity|]. constructor; [|constructor]. split; [reflexivity | constructor; [reflexivity | constructor]].
+Qed.
+
+(* a structural edit two levels down: the file becomes a directory *)
+Definition w_v2 : vtree :=
+  VNode (w_dir 10 100) [(w_a, VNode (w_file 11 33188 5 100) []);
+                        (w_b, VNode (w_dir 12 102) [(w_a, VNode (w_dir 14 102) [])])].
+Lemma w_sedit02 : sedit1 w_v0 w_v2.
+Proof.
+  unfold w_v0, w_v2.
+  apply (S_deep (w_dir 10 100) (w_dir 10 100) [(w_a, VNode (w_file 11 33188 5 100) [])] [] w_b).
+  apply (S_deep (w_dir 12 100) (w_dir 12 102) [] [] w_a).
+  apply S_type. vm_compute. discriminate.
+Qed.
+
+(* ---- D1 (known finding): a change of the permission bits alone is an edit (the clean tokens differ) that the
+   incremental build does not see: FileInputNodeTask::isResultValid keeps the stored record *)
+Definition w_v0_chmod : vtree :=
+  VNode (w_dir 10 100) [(w_a, VNode (w_file 11 33152 5 100) []);
+                        (w_b, VNode (w_dir 12 100) [(w_a, VNode (w_file 13 33188 7 100) [])])].
+
+Lemma mode_change_unseen : forall matches p,
+  edit1 w_v0 w_v0_chmod /\
+  tree_tokens matches [] p w_v0 <> tree_tokens matches [] p w_v0_chmod /\
+  tree_unchanged matches [] p (clean_build matches [] w_v0) w_v0_chmod.
+Proof.
+  intros matches p. split; [|split].
+  - apply (E_deep (w_dir 10 100) [] [(w_b, VNode (w_dir 12 100) [(w_a, VNode (w_file 13 33188 7 100) [])])] w_a).
+    apply E_info. unfold w_file. intros E. injection E as E. discriminate E.
+  - intros E. apply (tree_tokens_injective_sorted matches p) in E.
+    + unfold w_v0, w_v0_chmod, w_file in E. injection E as E. discriminate E.
+    + exact w_v0_wf.
+    + unfold w_v0_chmod, w_dir, w_file.
+      constructor; [apply w_fi_ok; lia | intros Hd; vm_compute in Hd; discriminate | reflexivity | unfold u64; cbn; lia |].
+      constructor; [apply w_leaf_ok; apply w_fi_ok; lia|].
+      constructor; [|constructor]. cbn [snd].
+      constructor; [apply w_fi_ok; lia | intros Hd; vm_compute in Hd; discriminate | reflexivity | unfold u64; cbn; lia |].
+      constructor; [apply w_leaf_ok; apply w_fi_ok; lia | constructor].
+    + exact w_v0_sorted.
+    + constructor; [constructor; [reflexivity | constructor]|].
+      constructor; [apply w_leaf_sorted|]. constructor; [|constructor]. cbn [snd].
+      constructor; [constructor|]. constructor; [apply w_leaf_sorted | constructor].
+  - unfold tree_unchanged. f_equal.
+Qed.
